@@ -1,6 +1,7 @@
 import FrappyProofs.Lemmas.RatLawful
 import FrappyProofs.Lemmas.DatatypesIdem
 import FrappyProofs.Lemmas.DatatypesCall
+import FrappyProofs.Lemmas.DatatypesReval
 /-
 On the exact carrier every grid value `k * scale` (scale ≠ 0) snaps to itself, and a concrete scaled
 type satisfies `GridExactScaled` — the hypothesis of the idempotence theorem is satisfiable.
@@ -52,13 +53,11 @@ theorem rat_onGridNear (s x : Rat) (h : OnGrid s x) : OnGridNear s x := by
 
 /-- over the exact carrier every grid value snaps to itself (hypothesis `GridAll` of `call_idem`) -/
 theorem rat_gridAllScaled (s : Rat) (hs : s ≠ 0) : GridAllScaled s := by
-  intro x hon _
-  obtain ⟨k, hk⟩ := hon
-  have hx : x = (k : Rat) * s := by
-    simp only [IsSome, ofGrid, FloatOps.ofInt, FloatOps.mul, FloatOps.same, decide_eq_true_eq] at hk
-    exact hk.symm
-  subst hx
-  exact rat_snap_self s hs k
+  intro x y h _
+  simp only [snap, gridIndex, ofGrid, FloatOps.round, FloatOps.div, FloatOps.ofInt, FloatOps.mul] at h
+  injection h with h
+  subst h
+  exact rat_snap_self s hs _
 
 /-- `ScaledInteger(0.1, 0, 10)` over the exact carrier -/
 theorem rat_gridExact_example : GridExactScaled (1/10 : Rat) 0 10 := by
@@ -80,5 +79,15 @@ theorem rat_gridExact_example : GridExactScaled (1/10 : Rat) 0 10 := by
     simp only [isFinite, FloatOps.isNaN, FloatOps.le, FloatOps.abs, FloatOps.maxFinite, Bool.not_false, Bool.true_and,
       RatCarrier.big]
     split <;> grind
+
+/-- over the exact carrier snapping is idempotent (the hypothesis of `revalidate_unchanged_partial`) -/
+theorem rat_snapIdem : SnapIdem Rat := by
+  intro s x y _ hp h hf
+  have hs : s ≠ 0 := by
+    intro e
+    subst e
+    revert hp
+    decide +kernel
+  exact rat_gridAllScaled s hs x y h hf
 
 end Frappy.Lemmas.C01
